@@ -763,6 +763,10 @@ func c14FieldAddrsAny(fn *ssa.Function, named *types.Named, field string) []*ssa
 }
 
 var c14Mutants = []Mutant{
+	// D10 regression: the fix (8b98a49) reverted
+	{Name: "d10-manifest-delete-skipped-after-index-cleanup-failure", File: "registry/remote/repository.go",
+		Old: "\t\t\tif deleteErr := s.repo.delete(ctx, target, true); deleteErr != nil {\n\t\t\t\treturn deleteErr\n\t\t\t}\n\t\t\treturn err\n",
+		New: "\t\t\treturn err\n", Expect: "C14.R3.indexing-iff-subject-and-no-api"},
 	// R1
 	{Name: "complete-skipped-on-prepare-error", File: "internal/syncutil/merge.go", Old: "\t\terr := prepare()\n\t\titems := m.commit()\n", New: "\t\terr := prepare()\n\t\tif err != nil {\n\t\t\treturn err\n\t\t}\n\t\titems := m.commit()\n", Expect: "C14.R1"},
 	{Name: "resolve-not-given-committed-slice", File: "internal/syncutil/merge.go", Old: "\t\t\terr = resolve(items)\n", New: "\t\t\terr = resolve(items[:1])\n", Expect: "C14.R1"},
